@@ -66,6 +66,12 @@ def main():
     finally:
         sh(f"git -C /repo worktree remove --force {wt}")
         sh("rm -rf /tmp/N0DE*")
+    # restore evidence: the evidence files committed must come from runs on the UNCHANGED tree
+    import atexit
+    def _restore():
+        for cp in check_props:
+            sh(f"git -C /verif checkout -- evidence/{cp}.json")
+    atexit.register(_restore)
     res["confirmed"] = all(res.get(k) for k in ["demo_passes_unchanged", "patch_applies", "compiles", "existing_tests_pass", "demo_fails_with_change"])
     # 3. run the checks against /repo with the patch applied
     res["checks"] = {}
